@@ -239,4 +239,71 @@ func TestSub_enum(t *testing.T) {
 	})
 }
 
+// ---------------------------------------------------------------------------------------
+// proteins: the rotation and case clauses hold "for every sequence the hash function accepts",
+// which includes (single-stranded) proteins
+
+type ProteinCase struct {
+	Seq      vk.SeqSpec `json:"seq"`
+	CaseMask uint64     `json:"case_mask"`
+	Offsets  []int      `json:"offsets,omitempty"`
+}
+
+const proteinAlphabet = "ACDEFGHIKLMNPQRSTVWYUO*BXZ"
+
+func checkProtein(c ProteinCase) error {
+	s := c.Seq.String()
+	for _, circ := range []bool{false, true} {
+		h0, err := hash(s, "PROTEIN", circ, false)
+		if err != nil {
+			return err
+		}
+		for _, m := range []uint64{c.CaseMask, ^uint64(0)} {
+			h, err := hash(flipCase(s, m), "PROTEIN", circ, false)
+			if err != nil {
+				return err
+			}
+			if h != h0 {
+				return vk.Errf("case: Hash(%q) = %s but Hash(%q) = %s (PROTEIN circular=%v)", s, h0, flipCase(s, m), h, circ)
+			}
+		}
+		if circ && len(s) > 0 {
+			offs := c.Offsets
+			if len(s) <= 200 {
+				offs = nil
+				for k := 0; k < len(s); k++ {
+					offs = append(offs, k)
+				}
+			}
+			for _, x := range offs {
+				k := ((x % len(s)) + len(s)) % len(s)
+				h, err := hash(rot(s, k), "PROTEIN", true, false)
+				if err != nil {
+					return err
+				}
+				if h != h0 {
+					return vk.Errf("rotation by %d: Hash(%q) = %s but Hash(%q) = %s (circular PROTEIN)", k, s, h0, rot(s, k), h)
+				}
+			}
+		}
+	}
+	return nil
+}
+
+var subProtein = vk.Register(&vk.Sub[ProteinCase]{Name: "protein", Check: checkProtein,
+	Gen: func(t *rapid.T) ProteinCase {
+		c := ProteinCase{Seq: vk.DrawSeq(t, "protein", proteinAlphabet, 0, 5000), CaseMask: rapid.Uint64().Draw(t, "case_mask")}
+		if u := c.Seq.String(); len(u) > 0 && len(u) <= 48 && rapid.IntRange(0, 3).Draw(t, "periodic") == 0 {
+			c.Seq = vk.SeqSpec{Lit: strings.Repeat(u, rapid.IntRange(2, 5).Draw(t, "reps"))}
+		}
+		c.Offsets = rapid.SliceOfN(rapid.IntRange(0, 1<<30), 6, 6).Draw(t, "offsets")
+		return c
+	},
+	NonTrivial: func(c ProteinCase) bool {
+		s := c.Seq.String()
+		return len(s) >= 2 && strings.Count(s, s[:1]) != len(s)
+	}})
+
+func TestSub_protein(t *testing.T) { vk.RunRapid(t, subProtein) }
+
 func TestReplay(t *testing.T) { vk.Replay(t) }
